@@ -28,7 +28,7 @@ Lookup(s, m) == LET r == SelectSeq(s, LAMBDA x : x.m = m) IN IF r = <<>> THEN [m
 TInit ==
     /\ l = 1 /\ tg = NoTg
     /\ Init
-    /\ conf = [useLogger |-> TRUE, recheck |-> TRUE, safeEnv |-> TRUE, locks |-> TRUE, eager |-> TRUE]
+    /\ conf = [useLogger |-> TRUE, recheck |-> TRUE, safeEnv |-> TRUE, locks |-> TRUE, eager |-> TRUE, rt |-> TRUE]
     /\ todo = [t \in Producers |-> <<>>]
     /\ script = [s \in Stoppers |-> <<>>]
 
@@ -46,7 +46,7 @@ TReset ==
     /\ script' = [s \in Stoppers |-> IF s \in DOMAIN ev.script THEN ev.script[s] ELSE <<>>]
     /\ inPipe' = {} /\ ctr' = 0 /\ rd' = [t \in Threads |-> 0]
     /\ delivered' = <<>> /\ accepted' = <<>>
-    /\ ghost' = [crashed |-> FALSE, cleared |-> {}, stops |-> 0]
+    /\ ghost' = [crashed |-> FALSE, cleared |-> {}, stops |-> 0, returned |-> {}, pre |-> <<>>]
     /\ tg' = NoTg
 
 Same == UNCHANGED vars
@@ -68,9 +68,10 @@ TCallEnd ==
        /\ lm' = (IF lm.owner = t THEN [owner |-> NoOne, depth |-> 0] ELSE lm)
        /\ todo' = [todo EXCEPT ![t] = Tail(@)]
        /\ cur' = [cur EXCEPT ![t] = NoMsg]
+       /\ ghost' = [ghost EXCEPT !.returned = @ \cup {cur[t]}]
        /\ Goto(t, "idle")
        /\ UNCHANGED <<conf, tptr, wptr, thr, wobj, queue, pending, app, hooked, script, inPipe, ctr, rd,
-                      delivered, accepted, ghost>>
+                      delivered, accepted>>
     \* the message's timestamp was taken inside the call
     /\ Lookup(tg.d, Msg(ev.m)).v <= ev.ms
     /\ tg' = [tg EXCEPT !.e = Append(@, [m |-> Msg(ev.m), v |-> ev.ms])]
